@@ -66,7 +66,7 @@ const (
 // stats of one scenario, for the non-triviality rules and labels
 type stats struct {
 	staleOnExisting, equalTSReplace, deleteMatched, deleteAtStoredTS, futureRejected, futureAccepted bool
-	hugeThreshold, legacyValue, starLiteral                                                         bool
+	hugeThreshold, legacyValue, starLiteral, projectionCompared, serverName                         bool
 	sharedPrefixMultiDelete, multiMixed, plainOverAtomic, atomicOverPlain, suppressedSeen            bool
 	resetWide, removeWide, connErrThenConnect, emptyNoti, acceptedSeen, collideSeen                  bool
 	ambiguous, latestChecked, metaDeleted, readd, elementEnc, keyed                                  bool
@@ -92,6 +92,8 @@ func (s *stats) labels() []string {
 	add(s.futureRejected, "future-rejected")
 	add(s.futureAccepted, "future-beyond-clock-accepted-by-latest")
 	add(s.legacyValue, "value-in-the-deprecated-value-field")
+	add(s.serverName, "cache-created-with-a-server-name")
+	add(s.projectionCompared, "target-compared-with-a-run-without-the-other-targets-operations")
 	add(s.starLiteral, "update-path-with-an-element-or-key-value-that-is-literally-a-star")
 	add(s.hugeThreshold, "future-threshold-near-the-int64-range(never-reject)")
 	add(s.sharedPrefixMultiDelete, "delete-2plus-through-shared-prefix")
@@ -153,6 +155,7 @@ type feedEntry struct {
 type world struct {
 	sc      *Scenario
 	c       *cache.Cache
+	initial *metadata.Metadata // metadata of a target just registered with a cache of the same options
 	clock   int64
 	feed    []feedEntry
 	replay  map[string]*pb.Notification // key includes the target
@@ -222,12 +225,18 @@ func newWorld(sc *Scenario, props map[string]bool) *world {
 	if !sc.EventDriven {
 		opts = append(opts, cache.DisableEventDrivenEmulation())
 	}
+	if sc.ServerName != "" {
+		opts = append(opts, cache.WithServerName(sc.ServerName))
+		w.st.serverName = true
+	}
 	var targets []string
 	for i := 0; i < sc.Targets; i++ {
 		targets = append(targets, targetName(i))
 		w.model[targetName(i)] = newMTarget()
 	}
 	w.c = cache.New(targets, opts...)
+	// the initial metadata values of a target: what a target just registered with a cache of the same options reports
+	w.initial = cache.New([]string{"fresh"}, opts...).Metadata()["fresh"]
 	w.c.SetClient(func(l *ctree.Leaf) {
 		n, ok := l.Value().(*pb.Notification)
 		if !ok {
@@ -1446,6 +1455,7 @@ func (w *world) run() (err error) {
 					w.fail("C14", "step %d: after Reset(%s) counter %s=%d, want 0", i, name, cn, v)
 				}
 			}
+			w.checkInitialMeta(i, name, "Reset")
 			got, _ := w.queryTarget(name)
 			for k := range got {
 				if !isMetaKey(k) {
@@ -1551,6 +1561,9 @@ func (w *world) run() (err error) {
 		case "updsize":
 			w.c.UpdateSize()
 			w.applyFeed(feedFrom)
+		case "tick":
+			// (projection runs: an operation on another target was left out; only the clock moves)
+			continue
 		default:
 			return &failure{"INFRA", "unknown step kind " + s.Kind}
 		}
@@ -1680,4 +1693,96 @@ func trimStack(b []byte) string {
 		}
 	}
 	return strings.Join(keep, "\n")
+}
+
+// projectionCheck is the isolation clause of C14 as a metamorphic relation: the scenario is run again on a fresh
+// cache with every operation addressed to another target left out (only the clock moves; cache-wide refreshes
+// stay). Everything stored and reported for the kept target - every leaf, its metadata subtree included - must be
+// the same in both runs: no operation on one target changes what is stored or reported for another.
+func projectionCheck(sc *Scenario, main *world) error {
+	if sc.Targets < 2 || len(sc.Steps) == 0 {
+		return nil
+	}
+	keep := len(sc.Steps) % sc.Targets
+	psc := *sc
+	psc.Steps = make([]Step, len(sc.Steps))
+	others := 0
+	for i, st := range sc.Steps {
+		switch {
+		case st.Kind == "updmeta" || st.Kind == "updsize" || st.T%sc.Targets == keep:
+			psc.Steps[i] = st
+		default:
+			psc.Steps[i] = Step{Kind: "tick", T: st.T, Tick: st.Tick}
+			others++
+		}
+	}
+	if others == 0 {
+		return nil
+	}
+	pw := newWorld(&psc, map[string]bool{})
+	if err := pw.run(); err != nil {
+		return &failure{"C14", fmt.Sprintf("the scenario restricted to the operations on %s (and the cache-wide refreshes) failed where the full scenario did not: %v", targetName(keep), err)}
+	}
+	name := targetName(keep)
+	a, errA := main.queryTarget(name)
+	b, errB := pw.queryTarget(name)
+	if (errA == nil) != (errB == nil) {
+		return &failure{"C14", fmt.Sprintf("target %s: query result %v with the operations on the other targets, %v without them", name, errA, errB)}
+	}
+	var diffs []string
+	for k, n := range a {
+		switch m, ok := b[k]; {
+		case !ok:
+			diffs = append(diffs, fmt.Sprintf("%q is stored only when the other targets are operated on", gn.Unkey(k)))
+		case !proto.Equal(n, m):
+			diffs = append(diffs, fmt.Sprintf("%q holds %v with the operations on the other targets and %v without them", gn.Unkey(k), n, m))
+		}
+	}
+	for k := range b {
+		if _, ok := a[k]; !ok {
+			diffs = append(diffs, fmt.Sprintf("%q is stored only when the other targets are left alone", gn.Unkey(k)))
+		}
+	}
+	if len(diffs) > 0 {
+		sort.Strings(diffs)
+		if len(diffs) > 4 {
+			diffs = diffs[:4]
+		}
+		return &failure{"C14", fmt.Sprintf("what is stored and reported for %s depends on the operations addressed to the other targets (%d of them left out in the second run): %s", name, others, strings.Join(diffs, "; "))}
+	}
+	main.st.projectionCompared = true
+	return nil
+}
+
+// checkInitialMeta: every registered metadata value of the target equals what a target just registered with a cache
+// of the same options reports (C14: Reset "returns its metadata to the initial values").
+func (w *world) checkInitialMeta(step int, name, after string) {
+	md := w.c.Metadata()[name]
+	if md == nil || w.initial == nil {
+		return
+	}
+	var names []string
+	for n := range metadata.TargetStrValues {
+		names = append(names, n)
+	}
+	sort.Strings(names)
+	for _, n := range names {
+		got, gerr := md.GetStr(n)
+		want, werr := w.initial.GetStr(n)
+		if (gerr == nil) != (werr == nil) || got != want {
+			w.fail("C14", "step %d: after %s(%s) metadata %s is %q (%v); a target just registered with this cache reports %q (%v): not back to its initial value", step, after, name, n, got, gerr, want, werr)
+		}
+	}
+	names = names[:0]
+	for n := range metadata.TargetBoolValues {
+		names = append(names, n)
+	}
+	sort.Strings(names)
+	for _, n := range names {
+		got, gerr := md.GetBool(n)
+		want, werr := w.initial.GetBool(n)
+		if (gerr == nil) != (werr == nil) || got != want {
+			w.fail("C14", "step %d: after %s(%s) metadata %s is %v (%v); a target just registered with this cache reports %v (%v)", step, after, name, n, got, gerr, want, werr)
+		}
+	}
 }
